@@ -53,7 +53,9 @@ theorem real_toOfScientific : (instNumOpsReal.toOfScientific) = (inferInstance :
 @[simp] theorem real_isNaN (x : ℝ) : NumOps.isNaN x = false := rfl
 @[simp] theorem real_pi : (NumOps.pi : ℝ) = Real.pi := rfl
 @[simp] theorem real_sq (x : ℝ) : NumOps.sq x = x * x := rfl
-@[simp] theorem real_cube (x : ℝ) : NumOps.cube x = x ^ (3:ℝ) := by simp [NumOps.cube]
+@[simp] theorem real_cube (x : ℝ) : NumOps.cube x = x ^ (3:ℕ) := by
+  have : NumOps.cube x = x ^ ((3:ℕ):ℝ) := rfl
+  rw [this, Real.rpow_natCast]
 @[simp] theorem real_sel (c : Bool) (a b : ℝ) : NumOps.sel c a b = if c then a else b := rfl
 @[simp] theorem real_isclose (a b r t : ℝ) : NumOps.isclose a b r t = decide (|a - b| ≤ t + r * |b|) := rfl
 end NumOps
